@@ -71,6 +71,7 @@ type FuncContract struct {
 	Spawned    bool     // function is only ever started with `go` (informational)
 	Terminates map[string]bool
 	Defaults   string
+	Aliases    []string
 }
 
 type GhostDecl struct {
@@ -94,6 +95,7 @@ type ContractFile struct {
 	Ghosts  []*GhostDecl
 	Preds   []*PredDecl
 	Funcs   []*FuncContract
+	GoDecls []string
 	Consts  []*Clause // closed obligations over package-level constants
 	Lemmas  []*Clause
 }
@@ -101,7 +103,7 @@ type ContractFile struct {
 var clauseKeywords = map[string]bool{
 	"property": true, "requires": true, "ensures": true, "modifies": true, "pure": true,
 	"safe": true, "loop": true, "assume": true, "trusted": true, "alloc_bound": true,
-	"holds": true, "spawned": true, "terminates": true,
+	"holds": true, "spawned": true, "terminates": true, "alias": true,
 }
 
 var labelRe = regexp.MustCompile(`\s:([A-Za-z_][A-Za-z0-9_]*)\s*$`)
@@ -176,6 +178,11 @@ func ParseContractFile(path string) (*ContractFile, error) {
 			p := &PredDecl{Name: strings.TrimSpace(rest[:i]), Params: rest[i : j+1], Body: strings.TrimSpace(rest[k+2:]), Line: ln}
 			cf.Preds = append(cf.Preds, p)
 			lastExpr = &p.Body
+			cur = nil
+			continue
+		case "go":
+			cf.GoDecls = append(cf.GoDecls, rest)
+			lastExpr = &cf.GoDecls[len(cf.GoDecls)-1]
 			cur = nil
 			continue
 		case "const", "lemma":
@@ -299,6 +306,8 @@ func ParseContractFile(path string) (*ContractFile, error) {
 			cur.Holds = append(cur.Holds, strings.Fields(rest)...)
 		case "spawned":
 			cur.Spawned = true
+		case "alias":
+			cur.Aliases = append(cur.Aliases, strings.Fields(rest)...)
 		case "loop":
 			fs := strings.SplitN(rest, " ", 3)
 			if len(fs) < 2 {
